@@ -195,7 +195,7 @@ type startState struct {
 
 func run(c *vf.Ctx) {
 	g := gitx.New(c.Scratch)
-	nHist := c.N(7, 50)
+	nHist := c.N(7, 36)
 	perHist := c.N(16, 48)
 	var mu sync.Mutex
 	diffByKey := map[string]int{}
@@ -465,12 +465,12 @@ func run(c *vf.Ctx) {
 	c.Extra("gogit_error_samples", errSamples)
 	c.Extra("failures_by_key", diffByKey)
 	c.Extra("differences_from_git_outside_the_property", unstated)
-	c.Floor("successful go-git operations compared with git", c.Counter("ops_succeeded"), c.N(70, 1400))
+	c.Floor("successful go-git operations compared with git", c.Counter("ops_succeeded"), c.N(70, 1000))
 	c.Floor("operation kinds", c.SeenCount("op_kinds"), len(opKinds))
 	c.Floor("pre-state mutation kinds", c.SeenCount("pre_kinds"), 9)
 	c.Floor("distinct path transitions between start and target", c.SeenCount("path_transitions"), c.N(12, 20))
-	c.Floor("operations removing/replacing a tracked symlink that points at an existing directory", c.Counter("ops_removing_or_replacing_a_symlink_to_an_existing_directory"), c.N(8, 150))
-	c.Floor("untracked files whose survival was checked", c.Counter("untracked_survival_checked"), c.N(30, 600))
+	c.Floor("operations removing/replacing a tracked symlink that points at an existing directory", c.Counter("ops_removing_or_replacing_a_symlink_to_an_existing_directory"), c.N(8, 100))
+	c.Floor("untracked files whose survival was checked", c.Counter("untracked_survival_checked"), c.N(30, 400))
 	c.Assume("an operation go-git fails with an error is not a 'successful forced checkout' and is only counted (gogit_errors_where_git_succeeded), e.g. gitlink entries without initialised submodule")
 	c.Assume("untracked paths that collide with a path of the target commit (same name, directory/file conflict) cannot survive and are not compared; pre-existing empty directories are not tracked content and are not compared")
 	c.Assume("same-size edits that also restore an mtime older than the index are excluded: only ctime/inode would reveal them and no copy preserves those; racily-clean entries (mtime >= index mtime) are generated instead")
